@@ -24,7 +24,7 @@ func arcIndex(u, v int) uint { return uint(u*maxN + v) }
 // allow-all, each single edge forbidden, every pair of edges forbidden (graphs
 // with at most 5 edges), odd-sum and even-sum edges forbidden, for directed
 // graphs ascending and descending arcs forbidden, everything forbidden.
-func filtersFor(s *gspec) []edgeFilter {
+func filtersFor(s *gspec, pairs bool) []edgeFilter {
 	fs := []edgeFilter{{name: "nil", ext: true}, {name: "allow"}}
 	var all, odd, even, up, down uint64
 	var singles []edgeFilter
@@ -58,7 +58,7 @@ func filtersFor(s *gspec) []edgeFilter {
 		singles[len(singles)/2].ext = true
 	}
 	fs = append(fs, singles...)
-	if len(singles) <= 5 {
+	if pairs && len(singles) <= 5 {
 		for a := range singles {
 			for b := a + 1; b < len(singles); b++ {
 				fs = append(fs, edgeFilter{name: singles[a].name + "+" + singles[b].name, forbid: singles[a].forbid | singles[b].forbid})
@@ -108,7 +108,10 @@ func traverseChecks(c *chk, b *built) {
 	s := b.s
 	g := b.g
 	untils := untilsFor(s.n)
-	for _, f := range filtersFor(s) {
+	// edge-pair filters on the harness's own graph type only.
+	_, ordD := b.g.(ordDirected)
+	_, ordU := b.g.(ordUndirected)
+	for _, f := range filtersFor(s, ordD || ordU) {
 		f := f
 		allowed := func(u, v int) bool { return f.forbid>>arcIndex(u, v)&1 == 0 }
 		var trav func(graph.Edge) bool
